@@ -47,6 +47,7 @@ def case_translate(case):
     if (nx % 2 or ny % 2) and (modes[0] <= nx or modes[1] <= ny):
         raise core.HarnessError("odd grid needs clamped modes")
     kw = dict(modes=modes, halo=0.0, precision="double")
+    sl.pollute(nx, ny, dx, dy)
     tol = 1e-9
     cnt = [0]
 
@@ -100,10 +101,12 @@ def halo_configs(tier):
     profs = ("const", "most_aniso") if tier == "quick" else sl.PROFILE_SETS
     grids = [sl.GRIDS[0], sl.ODD_GRIDS[0]] if tier == "quick" else list(sl.GRIDS) + list(sl.ODD_GRIDS)
     halos = (None, 13.0, 20.0) if tier == "quick" else (None, 13.0, 20.0, 30.0, 45.0, 7.0)
-    for p, g, h in itertools.product(profs, grids, halos):
+    grids = grids + [((8, 6), (20.0, 45.0))]  # dx = 2.5, dy = 7.5: fractional padded offsets, whole-metre towers
+    for p, g in itertools.product(profs, grids):
         odd = g[0][0] % 2 or g[0][1] % 2
         for m in (([64, 64],) if odd else ("full", [4, 4])):
-            yield {"prof": p, "grid": g[0], "dom": g[1], "halo": h, "modes": m}
+            # all halos in ONE case (one process): identical mode counts, domain and tower offsets recur under different halos
+            yield {"prof": p, "grid": g[0], "dom": g[1], "halos": list(halos) + [8.9], "modes": m}
 
 
 def case_halo(case):
@@ -111,6 +114,50 @@ def case_halo(case):
     source cell s, equals the response at m to a unit source at s displaced ... i.e. footprint_m[s] == D_m[2m - s]
     wherever 2m - s lies inside the returned domain, and == D_(m+t)[..] translated for whole-cell tower moves
     wherever both cells are inside."""
+    out = {"v": [], "n": 0, "worst": 0.0, "towers": 0}
+    # All footprints of all halos first, ordered by the padded tower offset (xm + px*dx, ym + py*dy): calls that share
+    # this derived quantity under DIFFERENT halos (hence different wavenumbers) become neighbours, whatever the size or
+    # eviction policy of a memo keyed on it might be.
+    nx, ny = case["grid"]
+    dom = tuple(case["dom"])
+    dx, dy = dom[0] / nx, dom[1] / ny
+    jobs = []
+    for h in case["halos"]:
+        _, _, px, py = sl.padded_size(nx, ny, dom, h)
+        for (j, i) in itertools.product(range(ny), range(nx)):
+            jobs.append((round((i + px) * dx, 9), round((j + py) * dy, 9), repr(h), h, (j, i)))
+    jobs.sort(key=lambda t: t[:3])
+    pre = {}
+    for _, _, _, h, m in jobs:
+        pre[(repr(h), m)] = _footprint_for(case, h, m)
+    for h in case["halos"]:
+        r = _halo_one(dict(case, halo=h), {m: pre[(repr(h), m)] for m in itertools.product(range(ny), range(nx))})
+        out["v"] += r["v"]
+        out["n"] += r["n"]
+        out["worst"] = max(out["worst"], r["obs"]["worst_rel_err"])
+        out["towers"] += r["obs"]["towers"]
+    return {"v": out["v"][:6], "nt": True, "n": out["n"], "obs": {"worst_rel_err": out["worst"], "towers": out["towers"], "halos": case["halos"]}}
+
+
+def _tower(m, dx, dy):
+    x, y = m[1] * dx, m[0] * dy
+    if (m[0] + m[1]) % 2 == 0 and float(x).is_integer() and float(y).is_integer():
+        return (int(x), int(y))  # whole-metre coordinates written as integers
+    return (x, y)
+
+
+def _footprint_for(case, halo, m):
+    S0 = sl.solver()
+    nx, ny = case["grid"]
+    dom = tuple(case["dom"])
+    dx, dy = dom[0] / nx, dom[1] / ny
+    z, prof = sl.build_profiles(case["prof"], 4)
+    modes = sl.resolve_modes(case["modes"], nx, ny, dom, halo)
+    _, c, f = S0(np.zeros((ny, nx)), z, prof, dom, [2, 4], modes=modes, halo=halo, precision="double", meas_pt=_tower(m, dx, dy), footprint=True)
+    return np.stack([np.asarray(c, dtype=float), np.asarray(f, dtype=float)])
+
+
+def _halo_one(case, FP=None):
     S0 = sl.solver()
     nx, ny = case["grid"]
     dom = tuple(case["dom"])
@@ -131,7 +178,10 @@ def case_halo(case):
     worst = 0.0
     cells = list(itertools.product(range(ny), range(nx)))
     q0 = np.zeros((ny, nx))
-    FP = {m: S(q0, meas_pt=(m[1] * dx, m[0] * dy), footprint=True) for m in cells}
+    if FP is None:
+        FP = {m: S(q0, meas_pt=_tower(m, dx, dy), footprint=True) for m in cells}
+    else:
+        cnt[0] += len(FP)
     scale = max(np.abs(FP[cells[0]]).max(), 1e-300)
     for (mj, mi) in cells:
         Dm = S(sl.impulse(ny, nx, mj, mi))
